@@ -626,6 +626,8 @@ func (g *Graph) factsLattice() Lattice[Facts] {
 							if calleeName(info, c) == "builtin.make" && len(c.Args) >= 2 && !mentions(normStr(info, c.Args[1]), lhsStr) {
 								if _, isSl := info.TypeOf(c).Underlying().(*types.Slice); isSl {
 									n.setRel(token.EQL, &ast.CallExpr{Fun: ast.NewIdent("len"), Args: []ast.Expr{target}}, c.Args[1], true)
+									// and cap(X) >= n (with an explicit capacity argument: cap(X) >= len)
+									n.setRel(token.LSS, &ast.CallExpr{Fun: ast.NewIdent("cap"), Args: []ast.Expr{target}}, c.Args[1], false)
 								}
 							}
 						}
